@@ -1,0 +1,62 @@
+//! Verification-only accessors, compiled in only with `--cfg rustzx_verif`.
+//! They expose existing state and existing bus entry points; no emulation logic lives here.
+use super::Emulator;
+use crate::host::Host;
+use rustzx_z80::{Z80Bus, Z80};
+
+impl<H: Host> Emulator<H> {
+    /// Mutable access to the CPU (registers, halt/skip flags)
+    pub fn verif_cpu(&mut self) -> &mut Z80 {
+        &mut self.cpu
+    }
+
+    /// Clocks passed since the frame start
+    pub fn verif_frame_clocks(&self) -> usize {
+        self.controller.frame_clocks
+    }
+
+    /// Overrides the in-frame clock counter
+    pub fn verif_set_frame_clocks(&mut self, clocks: usize) {
+        self.controller.frame_clocks = clocks;
+    }
+
+    /// (last value of port 0x7FFD, paging still enabled, displayed screen bank)
+    pub fn verif_paging(&self) -> (u8, bool, u8) {
+        self.controller.verif_paging()
+    }
+
+    /// Performs port read exactly as the CPU would (contention included)
+    pub fn verif_read_io(&mut self, port: u16) -> u8 {
+        self.controller.read_io(port)
+    }
+
+    /// Performs port write exactly as the CPU would (contention included)
+    pub fn verif_write_io(&mut self, port: u16, data: u8) {
+        self.controller.write_io(port, data);
+    }
+
+    /// Performs memory read cycle exactly as the CPU would
+    pub fn verif_read_mem(&mut self, addr: u16, clk: usize) -> u8 {
+        self.controller.read(addr, clk)
+    }
+
+    /// Performs memory write cycle exactly as the CPU would
+    pub fn verif_write_mem(&mut self, addr: u16, data: u8, clk: usize) {
+        self.controller.write(addr, data, clk);
+    }
+
+    /// Lets emulated time pass without CPU activity
+    pub fn verif_wait(&mut self, clk: usize) {
+        self.controller.wait_internal(clk);
+    }
+
+    /// INT line level as seen by the CPU
+    pub fn verif_int_active(&self) -> bool {
+        self.controller.int_active()
+    }
+
+    /// Frames completed since the last `emulate_frames` loop reset
+    pub fn verif_frames_count(&self) -> usize {
+        self.controller.frames_count()
+    }
+}
